@@ -52,8 +52,11 @@ class Handler(object):
   def _do(self, arg):
     r = self.req
     kind = (r.spec or {}).get('kind', 'ok')
-    if kind == 'declared' and r.method in ('risky', 'guard'):
+    if kind == 'declared' and r.method in ('risky', 'guard', 'multi'):
       raise self.m.Oops('declared:%s' % (r.call_id,))
+    if kind == 'declared2' and r.method == 'multi':
+      # the second exception of the method's throws list
+      raise self.m.Denied('declared2:%s' % (r.call_id,), 7)
     if kind == 'appexc':
       raise RuntimeError('handler failed')
     return kind
@@ -70,6 +73,9 @@ class Handler(object):
     return self.echo(s)
 
   def relay(self, s):
+    return self.echo(s)
+
+  def multi(self, s):
     return self.echo(s)
 
   def poke(self, s):
